@@ -162,6 +162,7 @@ public:
                     } else if (get_next() != nullptr) {
                         get_next()->set_prev(nullptr);
                     }
+                    YAKUSHIMA_VERIF_POINT(8);
                     /**
                      * lock order is next to prev and lower to higher.
                      */
